@@ -3,6 +3,7 @@ package meta
 import (
 	"errors"
 	"fmt"
+	"sort"
 
 	"github.com/freeconf/yang/val"
 )
@@ -36,8 +37,9 @@ func (c *compiler) module(y *Module) error {
 			return err
 		}
 	}
-	for _, i := range y.identities {
-		if err := c.compile(i); err != nil {
+	// in name order: compiling an identity appends it to its bases' derived lists
+	for _, ident := range sortedIdentityNames(y.identities) {
+		if err := c.compile(y.identities[ident]); err != nil {
 			return err
 		}
 	}
@@ -57,9 +59,18 @@ func (c *compiler) module(y *Module) error {
 	return c.compile(y)
 }
 
+func sortedIdentityNames(identities map[string]*Identity) []string {
+	names := make([]string, 0, len(identities))
+	for name := range identities {
+		names = append(names, name)
+	}
+	sort.Strings(names)
+	return names
+}
+
 func (c *compiler) compileImport(m *Module) error {
-	for _, i := range m.identities {
-		if err := c.compile(i); err != nil {
+	for _, ident := range sortedIdentityNames(m.identities) {
+		if err := c.compile(m.identities[ident]); err != nil {
 			return err
 		}
 	}
